@@ -323,8 +323,29 @@ theorem dec_tail (on : Bool) (k c2 c3 : List UInt8) (mlen : Nat) (hk : mlen + 32
         rw [xor_ok _ _ _ (by omega) (by omega), hl, List.take_of_length_le (by omega),
           List.take_of_length_le (by omega)]
 
+theorem take65_X (ct : List UInt8) : (List.drop 1 (ct.take 65)).take 32 = (ct.drop 1).take 32 := by
+  rw [List.drop_take, List.take_take]; rfl
+theorem take65_Y (ct : List UInt8) : (List.drop 33 (ct.take 65)).take 32 = (ct.drop 33).take 32 := by
+  rw [List.drop_take, List.take_take]; rfl
+theorem P_eq : Gen.SM9.P = Spec.SM9.p := by decide
+
+/-- the fixed code: a C1 coordinate that is not a field element (≥ p) is `InvalidPoint`, before anything is computed -/
+theorem decrypt_noncanonical (key : Sm9EncKey) (idb data : List UInt8) (h1 : 98 ≤ data.length) (h2 : data.length ≤ 352)
+    (h : data.head? = some 0x04)
+    (hnc : Spec.SM9.p ≤ beNat ((data.drop 1).take 32) ∨ Spec.SM9.p ≤ beNat ((data.drop 33).take 32)) :
+    key.decrypt idb data = .err "InvalidPoint" := by
+  have hhead : ¬ data.headD 0 ≠ 0x04 := by
+    cases data with
+    | nil => simp at h1
+    | cons a t => simpa using h
+  unfold Sm9EncKey.decrypt
+  rw [if_neg (by omega), if_neg hhead]
+  simp only [take65_X, take65_Y, P_eq]
+  rw [if_pos hnc]
+
 theorem decrypt_eq (key : Sm9EncKey) (idb data : List UInt8) (h1 : 98 ≤ data.length) (h2 : data.length ≤ 352)
-    (h : data.head? = some 0x04) :
+    (h : data.head? = some 0x04)
+    (hcan : beNat ((data.drop 1).take 32) < Spec.SM9.p ∧ beNat ((data.drop 33).take 32) < Spec.SM9.p) :
     key.decrypt idb data =
       let c1 := fromBytesPt (data.take 65)
       let k := decK key idb data c1
@@ -341,6 +362,11 @@ theorem decrypt_eq (key : Sm9EncKey) (idb data : List UInt8) (h1 : 98 ≤ data.l
   rw [if_neg (by omega), if_neg hhead]
   have e97 : 65 + 32 = 97 := rfl
   have e287 : 255 + 32 = 287 := rfl
+  have hnc : ¬ (Gen.SM9.P ≤ beNat ((List.drop 1 (data.take 65)).take 32)
+      ∨ Gen.SM9.P ≤ beNat ((List.drop 33 (data.take 65)).take 32)) := by
+    rw [take65_X, take65_Y, P_eq]; omega
+  simp only []
+  rw [if_neg hnc]
   simp only [from_bytes_ok (data.take 65) (by rw [List.length_take]; omega), bind_ok, decK, e97, e287]
   exact dec_tail _ _ _ _ _ (by rw [kdf_length _ _ (by omega) (by omega)]; omega) (by rw [List.length_drop])
 
@@ -372,6 +398,7 @@ theorem ite3_ne_panic {α : Type} (p1 p2 p3 : Prop) [Decidable p1] [Decidable p2
 theorem decrypt_ok_iff (key : Sm9EncKey) (idb data m : List UInt8) :
     key.decrypt idb data = .ok m ↔
       98 ≤ data.length ∧ data.length ≤ 352 ∧ data.head? = some 0x04 ∧
+      beNat ((data.drop 1).take 32) < Spec.SM9.p ∧ beNat ((data.drop 33).take 32) < Spec.SM9.p ∧
       ∃ c1, Point.from_bytes (data.take 65) = .ok c1 ∧ c1.is_on_curve = true ∧
         let k := kdf ((data.take 65).drop 1 ++ (sm9_u256_pairing key.de c1).to_bytes_be ++ idb) 287
         let mlen := data.length - 97
@@ -382,22 +409,24 @@ theorem decrypt_ok_iff (key : Sm9EncKey) (idb data m : List UInt8) :
     by_cases hw : data.length < 98 ∨ 352 < data.length
     · rw [decrypt_bad_length key idb data hw] at h; cases h
     · by_cases hh : data.head? = some 0x04
-      · rw [decrypt_eq key idb data (by omega) (by omega) hh] at h
-        have h' := (ite3_ok_iff _ _ _ _ _ _ _ _).1 h
-        simp only [decK] at h'
-        refine ⟨by omega, by omega, hh, fromBytesPt (data.take 65),
-          from_bytes_ok _ (by rw [List.length_take]; omega), ?_, ?_, ?_, ?_⟩
-        · exact (Bool.not_eq_false _).mp h'.1
-        · exact (Bool.not_eq_true _).mp h'.2.1
-        · exact Decidable.of_not_not h'.2.2.1
-        · exact h'.2.2.2
+      · by_cases hcan : beNat ((data.drop 1).take 32) < Spec.SM9.p ∧ beNat ((data.drop 33).take 32) < Spec.SM9.p
+        · rw [decrypt_eq key idb data (by omega) (by omega) hh hcan] at h
+          have h' := (ite3_ok_iff _ _ _ _ _ _ _ _).1 h
+          simp only [decK] at h'
+          refine ⟨by omega, by omega, hh, hcan.1, hcan.2, fromBytesPt (data.take 65),
+            from_bytes_ok _ (by rw [List.length_take]; omega), ?_, ?_, ?_, ?_⟩
+          · exact (Bool.not_eq_false _).mp h'.1
+          · exact (Bool.not_eq_true _).mp h'.2.1
+          · exact Decidable.of_not_not h'.2.2.1
+          · exact h'.2.2.2
+        · rw [decrypt_noncanonical key idb data (by omega) (by omega) hh (by omega)] at h; cases h
       · rw [decrypt_bad_prefix key idb data (by omega) (by omega) hh] at h; cases h
-  · rintro ⟨h1, h2, hh, c1, hc1, hon, hz, hm, hx⟩
+  · rintro ⟨h1, h2, hh, hx, hy, c1, hc1, hon, hz, hm, hx'⟩
     have hfb := from_bytes_ok (data.take 65) (by rw [List.length_take]; omega)
     rw [hfb] at hc1
     cases hc1
-    rw [decrypt_eq key idb data h1 h2 hh]
-    refine (ite3_ok_iff _ _ _ _ _ _ _ _).2 ⟨?_, ?_, ?_, hx⟩
+    rw [decrypt_eq key idb data h1 h2 hh ⟨hx, hy⟩]
+    refine (ite3_ok_iff _ _ _ _ _ _ _ _).2 ⟨?_, ?_, ?_, hx'⟩
     · rw [hon]; simp
     · simp only [decK]; rw [hz]; simp
     · simp only [decK]; exact fun hne => hne hm
@@ -406,8 +435,10 @@ theorem decrypt_total (key : Sm9EncKey) (idb data : List UInt8) : key.decrypt id
   by_cases hw : data.length < 98 ∨ 352 < data.length
   · rw [decrypt_bad_length key idb data hw]; intro h; cases h
   · by_cases hh : data.head? = some 0x04
-    · rw [decrypt_eq key idb data (by omega) (by omega) hh]
-      exact ite3_ne_panic _ _ _ _ _ _ _
+    · by_cases hcan : beNat ((data.drop 1).take 32) < Spec.SM9.p ∧ beNat ((data.drop 33).take 32) < Spec.SM9.p
+      · rw [decrypt_eq key idb data (by omega) (by omega) hh hcan]
+        exact ite3_ne_panic _ _ _ _ _ _ _
+      · rw [decrypt_noncanonical key idb data (by omega) (by omega) hh (by omega)]; intro h; cases h
     · rw [decrypt_bad_prefix key idb data (by omega) (by omega) hh]; intro h; cases h
 
 theorem decrypt_off_curve (key : Sm9EncKey) (idb data : List UInt8) (c1 : Point)
@@ -416,11 +447,13 @@ theorem decrypt_off_curve (key : Sm9EncKey) (idb data : List UInt8) (c1 : Point)
   by_cases hw : data.length < 98 ∨ 352 < data.length
   · exact ⟨_, decrypt_bad_length key idb data hw⟩
   · by_cases hh : data.head? = some 0x04
-    · have hfb := from_bytes_ok (data.take 65) (by rw [List.length_take]; omega)
-      rw [hfb] at hc1
-      cases hc1
-      rw [decrypt_eq key idb data (by omega) (by omega) hh]
-      exact ⟨"InvalidPoint", if_pos hoff⟩
+    · by_cases hcan : beNat ((data.drop 1).take 32) < Spec.SM9.p ∧ beNat ((data.drop 33).take 32) < Spec.SM9.p
+      · have hfb := from_bytes_ok (data.take 65) (by rw [List.length_take]; omega)
+        rw [hfb] at hc1
+        cases hc1
+        rw [decrypt_eq key idb data (by omega) (by omega) hh hcan]
+        exact ⟨"InvalidPoint", if_pos hoff⟩
+      · exact ⟨_, decrypt_noncanonical key idb data (by omega) (by omega) hh (by omega)⟩
     · exact ⟨_, decrypt_bad_prefix key idb data (by omega) (by omega) hh⟩
 
 /-- inside the window and with prefix 04, a C1 off the curve is reported as `InvalidPoint` -/
@@ -428,8 +461,10 @@ theorem decrypt_off_curve_kind (key : Sm9EncKey) (idb data : List UInt8) (h1 : 9
     (h2 : data.length ≤ 352) (hh : data.head? = some 0x04)
     (hoff : (fromBytesPt (data.take 65)).is_on_curve = false) :
     key.decrypt idb data = .err "InvalidPoint" := by
-  rw [decrypt_eq key idb data h1 h2 hh]
-  exact if_pos hoff
+  by_cases hcan : beNat ((data.drop 1).take 32) < Spec.SM9.p ∧ beNat ((data.drop 33).take 32) < Spec.SM9.p
+  · rw [decrypt_eq key idb data h1 h2 hh hcan]
+    exact if_pos hoff
+  · exact decrypt_noncanonical key idb data h1 h2 hh (by omega)
 
 
 /-! ### the RNG filter and the loop of `encrypt` -/
